@@ -236,7 +236,7 @@ def main(argv=None):
             inconclusive.append({"case": spec["id"], "reason": reason})
             continue
         if res.get("status") == "harness_error":
-            inconclusive.append({"case": spec["id"], "reason": "harness_error: " + str(res.get("error"))[:400]})
+            inconclusive.append({"case": spec["id"], "reason": "harness_error: ..." + str(res.get("error"))[-700:].replace("\n", " | ")})
             continue
         for k, v in (res.get("counters") or {}).items():
             counters[k] = counters.get(k, 0) + v
